@@ -710,8 +710,9 @@ class IteratorQueue(IterableQueue[_ValueT]):
           if result and (exhausted or self.ignore_error):
             break
           raise e
+    # Every freed slot can take an element: wakes up as many blocked enqueuers.
     with self._enqueue_lock:
-      self._enqueue_lock.notify()
+      self._enqueue_lock.notify(max(len(result), 1))
     logging.debug(
         'chainable: %s', f'"{self.name}" dequeued {len(result)} batches'
     )
